@@ -1,6 +1,6 @@
 """Property -> rules mapping, level texts, assumptions."""
 from . import entries
-from .rules import canon, facade, limbs, structural, total_rule, unimpl
+from .rules import canon, facade, flag, limbs, structural, total_rule, unimpl
 
 COMMON_ASSUMPTIONS = [
     "rustc's type checker, trait resolution, MIR construction and constant evaluation are correct "
@@ -84,7 +84,24 @@ def rules_with_canon(pid, files, extra=None):
 
 
 def rules_C07(ctx):
-    return total_for("C07", ctx) + [structural.maskkind(ctx)]
+    return total_for("C07", ctx) + [structural.maskkind(ctx), flag.lowlimb(ctx)]
+
+
+def flag_for(files):
+    return lambda ctx: [flag.flag(ctx, "all", files)]
+
+
+def rules_C05(ctx):
+    return total_for("C05", ctx) + [canon_for(ctx, {"src/bits.rs"}), flag.flag(ctx, "all", {"src/bits.rs"}),
+                                    flag.lowlimb(ctx)]
+
+
+def rules_C09(ctx):
+    return total_for("C09", ctx) + [flag.flag(ctx, "all", {"src/base_convert.rs"})]
+
+
+def rules_C13(ctx):
+    return total_for("C13", ctx) + [flag.flag(ctx, "all", {"src/pow.rs"})]
 
 
 def rules_C20(ctx):
@@ -115,10 +132,10 @@ def P(pid, clauses, not_decided_short, rules, not_decided):
 
 PROPS = {
     "C01": P("C01", "no panic site is reachable from any add/sub/neg form or operator (R-TOTAL)",
-             "that the carry chain computes the sum", rules_with_canon("C01", {"src/add.rs"}),
+             "that the carry chain computes the sum", rules_with_canon("C01", {"src/add.rs"}, flag_for({"src/add.rs"})),
              ["that the limb-wise carry chain computes the sum/difference", "abs_diff's value"]),
     "C02": P("C02", "no panic site is reachable from any mul form, inv_ring, Product (R-TOTAL)",
-             "products, Hensel lifting", rules_with_canon("C02", {"src/mul.rs"}), ["products", "trimming bookkeeping in addmul"]),
+             "products, Hensel lifting", rules_with_canon("C02", {"src/mul.rs"}, flag_for({"src/mul.rs", "src/algorithms/mul.rs"})), ["products", "trimming bookkeeping in addmul"]),
     "C03": P("C03", "checked_div/checked_rem/checked_next_multiple_of reach the zero-divisor panic only behind a "
              "dominating non-zero test (R-TOTAL, D-zero); no todo!/unimplemented! is reachable from a public item "
              "(R-UNIMPL)", "the Euclidean contract; that no non-zero divisor panics inside the Knuth kernels",
@@ -129,7 +146,7 @@ PROPS = {
               "value claims of the arithmetic kernels (quotient <= numerator, remainder < divisor)"]),
     "C05": P("C05", "no shift/rotate form or operator overload reaches a panic site; every limb index in "
              "overflowing_shl/shr is in range by the `limbs >= LIMBS` guard (R-TOTAL)",
-             "bit positions, rotation arithmetic, sign fill", rules_with_canon("C05", {"src/bits.rs"}),
+             "bit positions, rotation arithmetic, sign fill", rules_C05,
              ["bit positions", "rotation arithmetic", "sign fill"]),
     "C06": P("C06", "bit/set_bit/checked_byte/count functions reach no panic site; index guards dominate the limb "
              "accesses (R-TOTAL)", "every counting function's value", rules_with_canon("C06", {"src/bits.rs"}),
@@ -142,14 +159,14 @@ PROPS = {
              "site in any configuration, in particular the asserting from_limbs only behind a top-limb check (R-TOTAL)",
              "digit order, round trip", rules_with_canon("C08", {"src/bytes.rs"}), ["digit order inside the loops", "round trip"]),
     "C09": P("C09", "from_str/from_str_radix/from_base_* and the formatters reach no undischarged panic site (R-TOTAL)",
-             "Horner/spigot arithmetic, padding output", rules_total_only("C09"),
+             "Horner/spigot arithmetic, padding output", rules_C09,
              ["Horner/spigot arithmetic", "padding and alignment output"]),
     "C10": P("C10", "reduce_mod/add_mod/mul_mod/pow_mod/inv_mod reach the zero-divisor panic only behind a dominating "
              "non-zero test of the modulus (R-TOTAL, D-zero)", "residues, pow_mod, inv_mod cofactor sign",
-             rules_with_canon("C10", {"src/modular.rs"}), ["residues", "pow_mod", "inv_mod cofactor sign"]),
+             rules_with_canon("C10", {"src/modular.rs"}, flag_for({"src/modular.rs"})), ["residues", "pow_mod", "inv_mod cofactor sign"]),
     "C13": P("C13", "checked_log*/checked_pow and the pow family reach no undischarged panic site at any width, "
              "including BITS < 4 where the constants 2 and 10 do not fit (R-TOTAL, D-lit, return-discriminant "
-             "summaries)", "values, termination of root, float estimates", rules_total_only("C13"),
+             "summaries)", "values, termination of root, float estimates", rules_C13,
              ["values", "termination of root", "float estimates inside log"]),
     "C16": P("C16", "encoders, length and size-hint functions reach no undischarged panic site (R-TOTAL)",
              "round trip, byte-exact reference encodings, size-hint arithmetic", rules_total_only("C16"),
